@@ -1,6 +1,7 @@
 package props
 
 import (
+	"strconv"
 	"fmt"
 	"math"
 	"math/big"
@@ -316,6 +317,13 @@ func c18Cells(yield func(c18Case)) {
 			yield(c18Case{Kind: kind, In: model.F64(f + 0.5)})
 			yield(c18Case{Kind: kind, In: model.F64(f - 0.5)})
 			yield(c18Case{Kind: kind, In: model.F32(float32(f))})
+			if math.Abs(f) < 1e12 {
+				// fractional floats a hair away from a whole number: truncation toward zero, not rounding
+				for _, x := range []float64{math.Nextafter(f, math.Inf(1)), math.Nextafter(f, math.Inf(-1)), f + 1e-10, f - 1e-10, f + 0.9999999999, f - 0.9999999999} {
+					yield(c18Case{Kind: kind, In: model.F64(x)})
+					yield(c18Case{Kind: kind, In: model.Int(0), JSON: strconv.FormatFloat(x, 'g', -1, 64)})
+				}
+			}
 			yield(c18Case{Kind: kind, In: model.Str(s + ".5")})
 			yield(c18Case{Kind: kind, In: model.Str(s + "e0")})
 			if b.Sign() >= 0 {
